@@ -10,7 +10,7 @@ from lib.common import ROOT, import_spsdk  # noqa: E402
 bad = 0
 mods = sorted(glob.glob(os.path.join(ROOT, "spec", "*", "*.tla")))
 for m in mods:
-    ok, out = tlc.sany(m, libs=("C04", "C19", "C10") if os.sep + "SYS" + os.sep in m else ())      # spec/SYS composes specifications of several properties
+    ok, out = tlc.sany(m, libs=("C04", "C19", "C10", "C02", "C06", "C07", "C14", "C05", "C11", "C15") if os.sep + "SYS" + os.sep in m else ())      # spec/SYS composes specifications of several properties
     if not ok:
         bad += 1
         print("SANY FAILED", m)
